@@ -69,7 +69,9 @@ def record_runs(scn, refs, tier, seed):
     class ProjBoom(Exception):
         pass
 
-    def one(goal, qnv, L, raise_at, probe=False):
+    inner_traces = []
+
+    def one(goal, qnv, L, raise_at, probe=False, nest=False):
         yp = real.YP()
         yp.load_script_from_string(code)
         env = {}
@@ -81,6 +83,19 @@ def record_runs(scn, refs, tier, seed):
 
         def proj(x):
             count[0] += 1
+            if nest:
+                # the projection runs a bounded sub-query of its own on the same engine
+                iv = yp.variable()
+                iq = yp.query("flat", [iv])
+                iev = [{"ev": "begin", "limit": L + 40, "before": sys.getrecursionlimit()}]
+
+                def iproj(_):
+                    a = real.project_tuple([iv])
+                    iev.append({"ev": "answer", "ans": a, "raises": False})
+                    return a
+                ires = yp.evaluate_bounded(iq, iproj, recursion_limit=L + 40)
+                iev.append({"ev": "end", "after": sys.getrecursionlimit(), "bound": 0, "escaped": "none", "result": ires})
+                inner_traces.append(iev)
             ans = real.project_tuple(vs)
             raises = (count[0] == raise_at)
             events.append({"ev": "answer", "ans": ans, "raises": raises})
@@ -144,6 +159,15 @@ def record_runs(scn, refs, tier, seed):
                 shallow = bool(complete and need is not None and need + 30 < L - d0)
                 traces.append({"ref": answers, "complete": complete, "shallow": shallow, "events": events,
                                "goal": real.T.render_term(goal), "limit": L, "raise_at": ra})
+            if (L // step) % 4 == 0 and answers:
+                # nested use: the projection itself calls evaluate_bounded
+                del inner_traces[:]
+                events, _ = one(goal, qnv, L, 0, nest=True)
+                traces.append({"ref": answers, "complete": complete, "shallow": False, "events": events,
+                               "goal": real.T.render_term(goal) + " [nested]", "limit": L, "raise_at": 0})
+                for iev in inner_traces[:2]:
+                    traces.append({"ref": refs[0]["answers"], "complete": True, "shallow": False, "events": iev,
+                                   "goal": "flat(V0) [inner]", "limit": L + 40, "raise_at": 0})
     return traces
 
 
